@@ -422,7 +422,7 @@ func init() {
 			facts := ir.GuardFacts(st)
 			v := ir.Desc(st.Val)
 			if strings.HasPrefix(v, "call(protocol/common.CompressData)(param#0.Data,") && strings.HasSuffix(v, "#0") &&
-				ir.HasFact(facts, "call(protocol/common.CompressData)(param#0.Data,", "#1") && ir.HasFact(facts, "#2 == nil)") {
+				hasResultFact(facts, "protocol/common.CompressData)(", 1, true) && ir.HasFact(facts, "call(protocol/common.CompressData)(param#0.Data,", ")#2 == nil)") {
 				c.OK("C36e/formatCacheValue/stores-compressed-only-when-flagged", c.P.InstrPos(st), "")
 			} else {
 				c.Fail("C36e/formatCacheValue/stores-compressed-only-when-flagged", c.P.InstrPos(st), "response data replaced by "+trunc(v, 80)+" without err == nil ∧ isCompressed")
